@@ -44,6 +44,9 @@ pub struct TreeSpec {
     /// Some(k): pad every directory with orphan long-name slots (which nothing may reuse) until exactly k slots are free
     #[serde(default)]
     pub full_dirs: Option<u8>,
+    /// sub-directories carry extra attribute bits (read-only, hidden, system, archive) besides DIRECTORY
+    #[serde(default)]
+    pub dir_attrs: bool,
 }
 
 #[derive(Serialize, Deserialize, Clone, Debug, PartialEq)]
@@ -133,7 +136,7 @@ impl VolSpec {
             backup_boot: 6,
             fsinfo: FsInfoKind::Correct,
             label: false,
-            tree: TreeSpec { seed: 1, dirs: 0, files: 0, depth: 0, max_clusters: 1, lfn: false, deleted: false, vol_label: false, fragment: false, free: None, free_high: false, free_last: false, bad: 0, high_nibble: false, latin1: false, big_dirs: false, full_dirs: None },
+            tree: TreeSpec { seed: 1, dirs: 0, files: 0, depth: 0, max_clusters: 1, lfn: false, deleted: false, vol_label: false, fragment: false, free: None, free_high: false, free_last: false, bad: 0, high_nibble: false, latin1: false, big_dirs: false, full_dirs: None, dir_attrs: false },
         }
     }
 }
@@ -406,8 +409,15 @@ impl<'a> Builder<'a> {
                 if ch.is_empty() {
                     continue;
                 }
-                slots.push(entry_raw(&name, 0x10, ch[0], 0, fat32, FORMAT_TIME));
-                self.manifest.push(ManifestEntry { path: format!("{}/{}", path, nstr), is_dir: true, size: 0, hash: 0, attr: 0x10 });
+                // extra bits are a function of the tree seed and the name (no draw from the stream: older replay files keep their meaning)
+                let dattr = if self.spec.dir_attrs {
+                    let hsh = crate::rng::fnv(&[&self.spec.seed.to_le_bytes()[..], &name[..]].concat());
+                    0x10 | [0x00u8, 0x01, 0x02, 0x06, 0x20, 0x21, 0x07, 0x27][(hsh % 8) as usize]
+                } else {
+                    0x10
+                };
+                slots.push(entry_raw(&name, dattr, ch[0], 0, fat32, FORMAT_TIME));
+                self.manifest.push(ManifestEntry { path: format!("{}/{}", path, nstr), is_dir: true, size: 0, hash: 0, attr: dattr });
                 children.push((format!("{}/{}", path, nstr), ch[0]));
             } else {
                 let cb = self.g.cluster_bytes();
@@ -1039,6 +1049,7 @@ pub fn gen_volspec(rng: &mut Rng, bias: Bias, lba: u32, slot: u8) -> VolSpec {
             latin1: rng.chance(1, 4),
             big_dirs: rng.chance(1, 3),
             full_dirs: if spc <= 8 && rng.chance(1, if matches!(bias, Bias::Space | Bias::Small) { 3 } else { 6 }) { Some(rng.below(3) as u8) } else { None },
+            dir_attrs: rng.chance(1, 3),
         },
     }
 }
